@@ -27,6 +27,9 @@ ENGINES["ana"] = {"path": "harness/src/macho.rs (run_ana)",
 ENGINES["mut"] = {"path": "harness/src/mutate.rs",
     "kind": "hostile data: well-formed modules of every format (generated DWARF in three presentations, Mach-O compact unwind with text and __eh_frame, PE .pdata/.xdata/.text, no data; plus the ELF and Mach-O binaries under /repo/fixtures read with the object crate) are reduced to raw section tables and corrupted - bit flips, truncation, u16/u32 field edits with boundary values, random runs, splices from other sections, appended garbage, noise, swapped/missing sections, reversed/empty/shifted/oversized/below-base ranges, changed image base, absurd module ranges and base addresses; one case in ten stays well-formed - then Module::new, add_module, unwind_frame and iter_frames run under catch_unwind with overflow checks (both allocation policies); a panic located in /repo/src is a violation, panics in dependencies are counted and reported as notes; the case in flight is on disk so that a hang is reported with its input"}
 
+ENGINES["alloc"] = {"path": "harness/src/alloc.rs",
+    "kind": "counting global allocator armed exactly around each unwind_frame / iterator next made with MustNotAllocateDuringUnwind (zero alloc/dealloc/realloc events demanded; the allocating call chain is named from a backtrace) and, on the same module and thread state, comparison with MayAllocateDuringUnwind (result, registers, cache statistics); modules of every format: three DWARF presentations with random rows incl. unevaluable and evaluable expression CFAs and DW_CFA_(val_)expression register rules, Mach-O compact unwind (all opcode kinds, text present/absent, DWARF-deferred), PE (prolog/body/epilog addresses, chained infos), no data; every probe optionally repeated (cache hit)"}
+
 NOT_APPLICABLE = {}
 
 _NOTE = ("Trusted: Lean kernel; axioms propext/Classical.choice/Quot.sound only (audited per theorem on every run); "
@@ -154,6 +157,13 @@ PROPS = {
         "level_text": "Theorems over arbitrary module data (tables, opcodes, ranges, text bytes, FDEs, rows all universally quantified - corrupt data included): the instruction analysers are total when the offset lies within the bytes; the compact-unwind dispatch always hands them a slice containing the offset (arbitrary unsorted/overlapping/inverted tables and text ranges), hence never panics; the plan is never `panic` for any module, address and frame kind on both architectures. Partial: the byte-level parsers are third-party and framehop's glue around them (slicing, index construction, range arithmetic) is not modelled at byte level; that part is decided by the mut engine (byte-level corruption of generated and real sections, catch_unwind, overflow checks, panic location attribution, in-flight case file for hangs).",
         "level_note": _NOTE + " Panics inside gimli / macho-unwind-info / pe-unwind-info on corrupt bytes are outside the property's letter (framehop's own code) and are reported as NOTE lines with a replay, not as violations.",
         "statement": "No reachable panic outcome in the model's format-specific code for any module data; byte-level hostile inputs by differential-free fault injection on the implementation.",
+    },
+    "C15": {
+        "lean": ["FH.Props.C15"],
+        "engines": ["alloc", "scn"],
+        "level_text": "Partial by nature. Proved: the model has one semantics for both policies; the fixed-size storages of framehop's own code can never change a result (more than 32 chained UNWIND_INFOs are rejected before anything is stored; a compressed pop sequence has at most 8 registers). Measured, not proved: absence of heap events - a counting global allocator armed around every MustNotAllocateDuringUnwind call, for every format, hits and misses, cacheable and generic and expression paths, with the allocating call site from a backtrace; and equality of results with MayAllocateDuringUnwind on the same inputs. scn additionally runs its ground-truth walks under both policies against the model.",
+        "level_note": _NOTE + " Whether code calls the allocator is not expressible in an input/output model; gimli's StoreOnStack capacities are third-party (the CFI the harness writes stays within them; a divergence would be reported as policies-disagree).",
+        "statement": "Policy-free model; capacity bounds of own fixed-size storage; allocation events and policy agreement by instrumentation.",
     },
     "C03": {
         "lean": ["FH.Props.C03"],
